@@ -187,9 +187,16 @@ def one(prop, tier, seed, facts_override):
         return 1
     selftests = None
     if tier == "thorough":
-        from hcsa import selftest
+        from hcsa import selftest, witness
         selftests = selftest.run(prop, extract)
-    return evidence.finish(ROOT, prop, tier, seed, mod, insts, counts, controls, selftests, known, wall)
+        if prop in ("C12", "C13", "C15"):
+            selftests = selftests + witness.run(prop)
+    out_root = ROOT
+    if os.path.realpath(REPO) != "/repo":
+        # evaluating a scratch copy (seeded change, experiment): never touch the committed evidence
+        out_root = os.path.join(WORK, "alt")
+        print("note: HC_REPO=%s — evidence and report go to %s, not to /verif/evidence" % (REPO, out_root))
+    return evidence.finish(out_root, prop, tier, seed, mod, insts, counts, controls, selftests, known, wall)
 
 
 if __name__ == "__main__":
